@@ -255,11 +255,14 @@ func (verifTopics) Get(topic string) (*types.Topic, error) {
 	return &cp, nil
 }
 
-func (verifTopics) subsOf(topic string, any bool) []types.Subscription {
+func (verifTopics) subsOf(topic string, any bool, opts *types.QueryOpt) []types.Subscription {
 	s := verifStore
 	var keys []string
 	for k, sub := range s.subs {
 		if sub.Topic == topic && (any || sub.DeletedAt == nil) {
+			if opts != nil && !opts.User.IsZero() && sub.User != opts.User.String() {
+				continue
+			}
 			keys = append(keys, k)
 		}
 	}
@@ -272,16 +275,16 @@ func (verifTopics) subsOf(topic string, any bool) []types.Subscription {
 }
 
 func (t verifTopics) GetUsers(topic string, opts *types.QueryOpt) ([]types.Subscription, error) {
-	return t.subsOf(topic, false), nil
+	return t.subsOf(topic, false, opts), nil
 }
 func (t verifTopics) GetUsersAny(topic string, opts *types.QueryOpt) ([]types.Subscription, error) {
-	return t.subsOf(topic, true), nil
+	return t.subsOf(topic, true, opts), nil
 }
 func (t verifTopics) GetSubs(topic string, opts *types.QueryOpt) ([]types.Subscription, error) {
-	return t.subsOf(topic, false), nil
+	return t.subsOf(topic, false, opts), nil
 }
 func (t verifTopics) GetSubsAny(topic string, opts *types.QueryOpt) ([]types.Subscription, error) {
-	return t.subsOf(topic, true), nil
+	return t.subsOf(topic, true, opts), nil
 }
 
 func (verifTopics) Update(topic string, update map[string]interface{}) error {
